@@ -124,7 +124,21 @@ def op_strategy(depth=1, only_tr=False):
              "to_identity": False, "raise": False},
             T("restore_state"),
             {"op": "move", "pt": t[2] or {"x": 1.0}, "form": "kw"}]})
-    return hist.weighted((4, tr), (6, mv), (1, ctx), (1, hist.equally(macro, macro2)))
+    # a point visited under an axis-coupling transform, the head repositioned by
+    # a bypass move (or a re-zeroing), then a partial move back: every axis whose
+    # machine coordinate has to change must be mentioned again
+    macro3 = st.tuples(st.sampled_from([90.0, -90.0, 45.0, 30.0]),
+                       st.integers(-20, 20).map(float), st.integers(-20, 20).map(float),
+                       st.sampled_from(["rapid_absolute", "move_absolute", "set_axis"]),
+                       st.sampled_from(["x", "y"])).map(
+        lambda t: {"op": "tmacro", "ops": [
+            T("rotate", t[0], "z"),
+            {"op": "sync", "pt": {"x": t[1], "y": 0.0, "z": 0.0}},
+            {"op": t[3], "pt": {"x": 0.0, "y": 0.0}, "form": "kw"},
+            {"op": "set_distance_mode", "mode": "absolute"},
+            {"op": "move", "pt": {t[4]: t[1] if t[4] == "x" else t[2]}, "form": "kw"},
+            {"op": "move", "pt": {"x": t[1]}, "form": "kw"}]})
+    return hist.weighted((4, tr), (6, mv), (1, ctx), (1, hist.equally(macro, macro2, macro3)))
 
 
 class Runner:
